@@ -28,7 +28,7 @@ LEVEL_TEXT = ("Lean 4 theorems (all sizes, all patterns) about executable models
               "upperSolve(1,k) = dense solves on the sub-block: C16_lower_solve_range, C16_diagonal_solve_range, "
               "C16_upper_solve_prefix), the two models of Homogenization::run (C10's Cov.Hom.run and the solver's "
               "Ls.Env.homogenize) equal in values and rejections (C16_hom_run_eq_env_homogenize; hypotheses: square-root law, "
-              "Env.HoldsProblem incl. no repeated column index in a row), envSolve's answers = the packed kernels on "
+              "Env.HoldsProblem - since round 12 without a no-repeat condition: repeated column indices add up), envSolve's answers = the packed kernels on "
               "Hom.run's output with the reverse Cuthill-McKee ordering of the graph of that output itself (C16_envsolve_packed, "
               "round 10: out.sm well formed, its stored pattern and graph equal the solver model's, defect / factor / particular "
               "solution / sparse inverse inside the profile equal; hypotheses: square-root law, RowsOK, Env.HoldsProblem; both sides "
@@ -43,9 +43,9 @@ LEVEL_NOTE = ("Trusted: Lean kernel, statements in Props/C16.lean, C16Ls.lean, C
               "Preconditions the C++ never checks (capacity, every row started, column index in 1..cols) are hypotheses "
               "(SMat.WF), listed in ASSUMPTIONS. Not regenerated (hand models + correspondence): Envelope::set, lowerSolve, "
               "diagonalSolve, upperSolve, inverse, the bodies of new_row/add_element/transpose, BlockDiagonal::cholDec. No new "
-              "stream for C16Packed (its models are tied by C10's homrun stream, the envelope streams and drv_ls). Left in "
-              "C16_envsolve_packed / C16_hom_run_eq_env_homogenize: the hypothesis 'no repeated column index in a row' (RowsOK, "
-              "nodupRows: the solver-side Problem.dense overwrites a repeated index, the C++ sums since 6d0f7107); the adjusted "
+              "stream for C16Packed (its models are tied by C10's homrun stream, the envelope streams and drv_ls). Round 12: the hypothesis "
+              "'no repeated column index in a row' is gone from C16_envsolve_packed / C16_hom_run_eq_env_homogenize (RowsOK = range condition, "
+              "nodupRows removed from HoldsProblem: Problem.dense, Cov.Hom.run and the C++ all sum). Left: the adjusted "
               "unknowns a.x enter only through the particular solution fact.x0p; a.q0xx is tied to Envelope::inverse through "
               "zEntry inside the profile, not restated as one equation; that LocalNetwork hands a pair satisfying HoldsProblem is "
               "not derived.")
